@@ -53,7 +53,41 @@ fn emit(j: J) {
 }
 
 fn path_of(tcx: TyCtxt<'_>, did: DefId) -> String {
-    with_no_visible_paths!(with_resolve_crate_name!(with_no_trimmed_paths!(tcx.def_path_str(did))))
+    let s = with_no_visible_paths!(with_resolve_crate_name!(with_no_trimmed_paths!(tcx.def_path_str(did))));
+    strip_lifetime_segments(&s)
+}
+
+// `Ctx::<'a>::method` -> `Ctx::method` (segments that only list lifetimes carry no information for the rules)
+fn strip_lifetime_segments(s: &str) -> String {
+    let b = s.as_bytes();
+    let mut out = String::with_capacity(s.len());
+    let mut i = 0;
+    while i < b.len() {
+        if b[i..].starts_with(b"::<'") {
+            let mut j = i + 3;
+            let mut only_lifetimes = true;
+            while j < b.len() && b[j] != b'>' {
+                let c = b[j];
+                if !(c == b'\'' || c == b'_' || c == b',' || c == b' ' || c.is_ascii_alphanumeric()) {
+                    only_lifetimes = false;
+                    break;
+                }
+                j += 1;
+            }
+            // every comma separated item must start with a quote
+            if only_lifetimes && j < b.len() {
+                let inner = &s[i + 3..j];
+                if inner.split(',').all(|p| p.trim_start().starts_with('\'')) {
+                    i = j + 1;
+                    continue;
+                }
+            }
+        }
+        let ch = s[i..].chars().next().unwrap();
+        out.push(ch);
+        i += ch.len_utf8();
+    }
+    out
 }
 
 fn ty_str(ty: Ty<'_>) -> String {
@@ -328,11 +362,16 @@ fn rvalue_j<'tcx>(tcx: TyCtxt<'tcx>, body: &Body<'tcx>, owner: DefId, rv: &Rvalu
         }
         Rvalue::Discriminant(p) => J::Arr(vec![J::s("disc"), place_j(tcx, body, p)]),
         Rvalue::Aggregate(kind, ops) => {
+            let mut ext_fields: Option<Vec<J>> = None;
             let (k, path, variant): (&str, Option<String>, Option<String>) = match &**kind {
                 AggregateKind::Array(_) => ("array", None, None),
                 AggregateKind::Tuple => ("tuple", None, None),
                 AggregateKind::Adt(did, vi, _, _, _) => {
                     let def = tcx.adt_def(*did);
+                    if !did.is_local() {
+                        // field names of foreign ADTs (local ones are in the item facts)
+                        ext_fields = Some(def.variant(*vi).fields.iter().map(|f| J::s(f.name.to_string())).collect());
+                    }
                     ("adt", Some(path_of(tcx, *did)), Some(def.variant(*vi).name.to_string()))
                 }
                 AggregateKind::Closure(did, _) => ("closure", Some(path_of(tcx, *did)), None),
@@ -340,13 +379,17 @@ fn rvalue_j<'tcx>(tcx: TyCtxt<'tcx>, body: &Body<'tcx>, owner: DefId, rv: &Rvalu
                 AggregateKind::CoroutineClosure(did, _) => ("coroutine_closure", Some(path_of(tcx, *did)), None),
                 AggregateKind::RawPtr(..) => ("rawptr", None, None),
             };
-            J::Arr(vec![
+            let mut v = vec![
                 J::s("agg"),
                 J::s(k),
                 J::opt_s(path),
                 J::opt_s(variant),
                 J::Arr(ops.iter().map(|o| operand_j(tcx, body, owner, o)).collect()),
-            ])
+            ];
+            if let Some(f) = ext_fields {
+                v.push(J::Arr(f));
+            }
+            J::Arr(v)
         }
         Rvalue::CopyForDeref(p) => J::Arr(vec![J::s("cfd"), place_j(tcx, body, p)]),
         _ => J::Arr(vec![J::s("o")]),
